@@ -725,6 +725,17 @@ func (g *DocGen) securityReqs(defined []string) []interface{} {
 				if g.R.Intn(2) == 0 {
 					scopes = append(scopes, "write")
 				}
+				// scope names are free text: white space inside, at either end, the empty name, hostile characters
+				switch g.R.Intn(6) {
+				case 0:
+					scopes = append(scopes, []interface{}{"read pets", "admin\tall", " padded ", "line\nbreak", "nb\u00a0sp"}[g.R.Intn(5)])
+				case 1:
+					scopes = append(scopes, g.name())
+				case 2:
+					if g.R.Intn(3) == 0 {
+						scopes = append(scopes, "")
+					}
+				}
 			}
 			req[nm] = scopes
 		}
